@@ -56,7 +56,7 @@ def rejudge(case):
     return judge(drive.eval_step(case))
 
 
-PLAYOUTS = ['none', 'p-before-each', 'trailing-p', 'mixed', 'id-last', 'anon-item']
+PLAYOUTS = ['none', 'p-before-each', 'trailing-p', 'mixed', 'id-last', 'anon-item', 'twin-items']
 
 
 def run(tier, seed, procs):
